@@ -239,8 +239,9 @@ func deref(h handle, k int) (handle, bool, error) {
 }
 
 type derefIn struct {
-	cost uint64
-	read bool
+	cost   uint64
+	read   bool
+	unread uint64 // Message.Unread(unread): budget given back
 }
 type derefOut struct {
 	ok   bool
@@ -341,9 +342,30 @@ func (r *run) c02Walk() {
 	msg.ResetReadLimit(limitOf(T))
 	var handed uint64 // sum of true sizes of objects successfully handed out
 	var hist []porcupine.Operation
-	K := 1 + s.Choice("K", 4)
+	// (the draw was widened from 4 to 8: the upper half adds a task that gives budget back with
+	// Message.Unread while the readers run; earlier tapes keep their meaning)
+	kd := s.Choice("K", 8)
+	K := 1 + kd%4
+	tasks := K
+	var givenBack uint64
 	done := 0
 	limitErrs := 0
+	if kd >= 4 {
+		tasks++
+		s.Spawn("unreader", func() {
+			defer func() { done++ }()
+			n := 1 + s.Choice("nunread", 4)
+			for i := 0; i < n && !s.Failed(); i++ {
+				sz := []uint64{8, 16, 64}[s.Choice("unread-size", 3)]
+				givenBack += sz // counted before the call: what it gives back may be handed out at once
+				call := int64(s.Seq())
+				msg.Unread(capnp.Size(sz))
+				ret := int64(s.Seq())
+				hist = append(hist, porcupine.Operation{ClientId: K + 1, Input: derefIn{unread: sz}, Call: call, Output: derefOut{ok: true}, Return: ret})
+				s.Probe("budget_given_back_while_reading")
+			}
+		})
+	}
 	for k := 0; k < K; k++ {
 		k := k
 		s.Spawn(fmt.Sprintf("reader%d", k), func() {
@@ -363,8 +385,8 @@ func (r *run) c02Walk() {
 						continue
 					}
 					handed += g.objs[0].trueSize()
-					if handed > limitOf(T) {
-						s.Fail("budget_exceeded", "message.go:(*Message).canRead", fmt.Sprintf("objects totalling %d bytes were handed out under a traversal limit of %d", handed, limitOf(T)))
+					if handed > limitOf(T)+givenBack {
+						s.Fail("budget_exceeded", "message.go:(*Message).canRead", fmt.Sprintf("objects totalling %d bytes were handed out under a traversal limit of %d (+%d given back with Unread)", handed, limitOf(T), givenBack))
 						return
 					}
 					h, have = handle{o: g.objs[0], st: p.Struct(), depth: 1}, true
@@ -403,8 +425,8 @@ func (r *run) c02Walk() {
 					continue
 				}
 				handed += t.trueSize()
-				if handed > limitOf(T) {
-					s.Fail("budget_exceeded", "message.go:(*Message).canRead", fmt.Sprintf("objects totalling %d bytes were handed out under a traversal limit of %d", handed, limitOf(T)))
+				if handed > limitOf(T)+givenBack {
+					s.Fail("budget_exceeded", "message.go:(*Message).canRead", fmt.Sprintf("objects totalling %d bytes were handed out under a traversal limit of %d (+%d given back with Unread)", handed, limitOf(T), givenBack))
 					return
 				}
 				if uint(nh.depth) > D+1 {
@@ -418,7 +440,7 @@ func (r *run) c02Walk() {
 			}
 		})
 	}
-	s.Block("readers-done", func() bool { return done == K })
+	s.Block("readers-done", func() bool { return done == tasks })
 	if s.Failed() {
 		return
 	}
@@ -431,6 +453,9 @@ func (r *run) c02Walk() {
 			rem := state.(uint64)
 			in := input.(derefIn)
 			out := output.(derefOut)
+			if in.unread != 0 {
+				return []interface{}{rem + in.unread}
+			}
 			if in.read {
 				if rem == out.left {
 					return []interface{}{rem}
@@ -468,6 +493,8 @@ func histString(h []porcupine.Operation) string {
 		ou := o.Output.(derefOut)
 		if in.read {
 			out += fmt.Sprintf(" [%d..%d final=%d]", o.Call, o.Return, ou.left)
+		} else if in.unread != 0 {
+			out += fmt.Sprintf(" [c%d %d..%d unread=%d]", o.ClientId, o.Call, o.Return, in.unread)
 		} else {
 			out += fmt.Sprintf(" [c%d %d..%d cost=%d ok=%v]", o.ClientId, o.Call, o.Return, in.cost, ou.ok)
 		}
